@@ -215,7 +215,7 @@ impl ShardSplitter {
             None => return Ok(false),
         };
 
-        let next = match progress.next_phase() {
+        let mut next = match progress.next_phase() {
             Some(p) => p,
             None => {
                 // All phases done, just clean up the progress file
@@ -228,6 +228,23 @@ impl ShardSplitter {
             "Resuming split for shard {} (fence={}) from phase {:?}",
             old_shard, progress.fence_token, next
         );
+
+        if next == SplitPhase::Preparation {
+            // The previous attempt stopped before Phase 1 was recorded, so the
+            // split state may never have reached the metadata store. Store it
+            // (again) from the persisted progress; at this point no later
+            // phase has touched it yet, so this is idempotent.
+            self.metadata
+                .start_split(
+                    old_shard,
+                    progress.new_shards.clone(),
+                    progress.split_point.clone(),
+                )
+                .await?;
+            progress.completed_phase = Some(SplitPhase::Preparation);
+            self.persist_progress(&progress).await?;
+            next = SplitPhase::DualWrite;
+        }
 
         self.run_from_phase(&mut progress, next).await?;
         Ok(true)
